@@ -154,6 +154,7 @@ func manyDocs(n int) []m.Doc {
 func init() {
 	register("C07", "model_checking", func(run *ev.Run, tier string) string {
 		tags := own("nonlinearizable", "deadlock", "rawkeys", "count", "indexquery", "id", "panic", "leak", "final", "harness")
+		runRaceBinary(run, tier) // first: cheap, and a data race explains most of what the exploration would then stumble over
 		nScen := 12
 		for _, indexed := range []bool{false, true} {
 			for i, sc := range scenarios(indexed) {
@@ -171,7 +172,6 @@ func init() {
 				}
 			}
 		}
-		runRaceBinary(run, tier)
 		run.Set("traces_validated_against_impl", run.Get("transitions"))
 		run.Set("distinct_nontrivial", run.Get("schedules_with_preemption"))
 		run.Assume("both stores isolate uncommitted work, so with scheduling points at operation and transaction boundaries the interleavings explored are complete for <= 3 goroutines; every-store-call points are explored with <= 2 preemptions in the thorough tier")
